@@ -141,6 +141,27 @@ def uniform(repo: Repo) -> RuleRun:
         # every side contributes: the loop is not left early (which sides were skipped would depend on their numbering)
         from ..util import loop_early_exits
 
+        # nothing computed per side is used after the loop: a statement dedented out of the loop sees only the LAST side
+        inner_names = set(derived)
+        for st in ast.walk(lp):
+            if isinstance(st, ast.Assign):
+                for t_ in st.targets:
+                    if isinstance(t_, ast.Name) and t_.id != "quality":
+                        inner_names.add(t_.id)
+        accumulators = {t_.id for st in ast.walk(lp) if isinstance(st, ast.AugAssign) for t_ in [st.target] if isinstance(t_, ast.Name)}
+        after = [x for x in ast.walk(q.node) if isinstance(x, ast.Name) and isinstance(x.ctx, ast.Load) and x.id in (inner_names - accumulators) and x.lineno > (lp.end_lineno or lp.lineno)]
+        # names re-assigned after the loop before being read are fresh values, not stale ones
+        reassigned_after = {t_.id: st.lineno for st in ast.walk(q.node) if isinstance(st, ast.Assign) and st.lineno > (lp.end_lineno or lp.lineno) for t_ in st.targets if isinstance(t_, ast.Name)}
+        after = [x for x in after if not (x.id in reassigned_after and reassigned_after[x.id] <= x.lineno)]
+        r.check(
+            not after,
+            q,
+            "no per-side value is used after the per-side loop",
+            f"CellBase.quality uses '{after[0].id if after else ''}' after the per-side loop has ended: the statement runs once, with the value left over from the last side only - which side that is "
+            "depends on the numbering, and the contributions of the other sides are lost",
+            after[0] if after else lp,
+            key="per-side-loop:stale",
+        )
         exits = [e for e in loop_early_exits(lp) if not isinstance(e, ast.Raise)]
         exits += [n for n in ast.walk(lp) if isinstance(n, ast.Continue) and not any(isinstance(a, (ast.For, ast.While)) and a is not lp and any(x is n for x in ast.walk(a)) for a in ast.walk(lp))]
         r.check(
@@ -170,14 +191,23 @@ def face_symmetry(repo: Repo) -> RuleRun:
         for n in walk_shallow(m.node):
             if isinstance(n, ast.Assign) and isinstance(n.targets[0], ast.Name) and isinstance(n.value, ast.Call) and (attr_chain(n.value.func) or "").endswith("get_side_points"):
                 face_vars.add(n.targets[0].id)
+        # arrays derived from the face's points row by row (differences with the centre, rolled copies, quotients)
+        for _ in range(3):
+            for n in walk_shallow(m.node):
+                if isinstance(n, ast.Assign) and isinstance(n.targets[0], ast.Name) and any(isinstance(x, ast.Name) and x.id in face_vars for x in ast.walk(n.value)):
+                    v = n.value
+                    rowwise = isinstance(v, ast.BinOp) or (isinstance(v, ast.Call) and (attr_chain(v.func) or "").split(".")[-1] in ("roll", "cross", "array", "asarray"))
+                    if rowwise:
+                        face_vars.add(n.targets[0].id)
         picked = []
         for n in ast.walk(m.node):
             if isinstance(n, ast.Subscript) and isinstance(n.value, ast.Name) and n.value.id in face_vars:
                 sl = n.slice
-                if isinstance(sl, ast.Constant) and isinstance(sl.value, int):
+                first = sl.elts[0] if isinstance(sl, ast.Tuple) and sl.elts else sl
+                if isinstance(first, ast.Constant) and isinstance(first.value, int):
                     picked.append(n)
-                elif isinstance(sl, ast.Tuple) and sl.elts and isinstance(sl.elts[0], ast.Constant) and isinstance(sl.elts[0].value, int):
-                    picked.append(n)
+                elif isinstance(first, ast.Slice) and (first.lower is not None or first.upper is not None):
+                    picked.append(n)  # an open chain of rows ([:-1], [1:]) instead of the closed cycle (np.roll)
         r.check(
             not picked,
             m,
